@@ -69,6 +69,11 @@ def gen_case(rnd, tier: str, i: Any) -> Dict[str, Any]:
                     else:
                         e["args"]["memory bandwidth (GB/s)"] = 0.0
         if rnd.random() < 0.25:
+            # copy types beyond the three everyday ones: peer-to-peer, host-to-host (each type has a series of its own)
+            for e in tr["traceEvents"]:
+                if e.get("cat") == "gpu_memcpy" and rnd.random() < 0.4:
+                    e["name"] = rnd.choice(["Memcpy PtoP (Device -> Device)", "Memcpy HtoH (Pageable -> Pinned)", "Memcpy PtoP (Device -> Device)"])
+        if rnd.random() < 0.25:
             # the launch vocabulary of a ROCm / MTIA trace (Kineto files them under cuda_runtime as well)
             ren = {"cudaLaunchKernel": ["hipLaunchKernel", "hipExtModuleLaunchKernel", "runFunction - job_prep_and_submit_for_execution"],
                    "cudaLaunchKernelExC": ["hipExtModuleLaunchKernel"], "cuLaunchKernel": ["hipLaunchKernel"],
@@ -207,19 +212,36 @@ def run_case(case: Dict[str, Any], ctx: Any) -> core.CaseResult:
         from hta.trace_analysis import TimeSeriesTypes
         hist = core.rng("c14files", case.get("file_seed", 0)).sample(
             [(None, "_with_counters"), (TimeSeriesTypes.QUEUE_LENGTH, "_ql"), (TimeSeriesTypes.MEMCPY_BANDWIDTH, "_bw"),
-             (TimeSeriesTypes.QUEUE_LENGTH | TimeSeriesTypes.MEMCPY_BANDWIDTH, "_both"), (None, "_with_counters")], k=case.get("file_requests", 1))
+             (TimeSeriesTypes.QUEUE_LENGTH | TimeSeriesTypes.MEMCPY_BANDWIDTH, "_both"), (None, "_with_counters"),
+             # other series under a suffix that an earlier request may have used: the file of the latest request counts (files are
+             # left where they were written, as a user leaves them)
+             (TimeSeriesTypes.QUEUE_LENGTH, "_with_counters"), (TimeSeriesTypes.MEMCPY_BANDWIDTH, "_with_counters"), (TimeSeriesTypes.MEMCPY_BANDWIDTH, "_ql")],
+            k=case.get("file_requests", 1))
+        seen_suffix = set()
         for n_call, (which, suffix) in enumerate(hist):
             want_ql = which is None or TimeSeriesTypes.QUEUE_LENGTH in which
             want_bw = which is None or TimeSeriesTypes.MEMCPY_BANDWIDTH in which
+            stamp = {}
+            for r in ranks:
+                q = os.path.join(d, fnames[r]).replace(".json", f"{suffix}.json")
+                stamp[r] = os.stat(q).st_mtime_ns if os.path.exists(q) else None
             ok, _ = drv.guard(res, "generate_trace_with_counters", ta.generate_trace_with_counters, which, ranks, suffix)
             if not ok:
                 break
             if n_call >= 1:
                 res.counters["second_or_later_counter_file_request"] += 1
+            if suffix in seen_suffix:
+                res.counters["requests_rewriting_a_file_of_an_earlier_request"] += 1
+            seen_suffix.add(suffix)
             for r in ranks:
                 src = os.path.join(d, fnames[r])
                 outp = src.replace(".json", f"{suffix}.json")
                 has_series = (want_ql and r in ql) or (want_bw and r in bw)
+                if not has_series and stamp[r] is not None and os.path.exists(outp) and os.stat(outp).st_mtime_ns == stamp[r]:
+                    continue              # nothing to write for this rank; the file lying there is an earlier request's
+                if has_series and stamp[r] is not None and os.path.exists(outp) and os.stat(outp).st_mtime_ns == stamp[r]:
+                    res.bad("counters-file-written", f"rank {r}: {os.path.basename(outp)} still is the file of an earlier request (not rewritten for {which})")
+                    continue
                 if not os.path.exists(outp):
                     if has_series:
                         res.bad("counters-file-written", f"rank {r}: {os.path.basename(outp)} was not written")
@@ -231,9 +253,7 @@ def run_case(case: Dict[str, Any], ctx: Any) -> core.CaseResult:
                         out = json.loads(fh.read())
                 except (UnicodeDecodeError, OSError, ValueError, EOFError) as e:
                     res.bad("counters-file-reads-as-named", f"rank {r}: {os.path.basename(outp)} cannot be read the way its name says ({type(e).__name__})")
-                    os.remove(outp)
                     continue
-                os.remove(outp)
                 n_src = len(case["files"][fnames[r]]["traceEvents"])
                 extra = out["traceEvents"][n_src:]
                 exp_c = collections.Counter()
